@@ -88,3 +88,37 @@ def called_names(node: ast.AST) -> Set[str]:
         if isinstance(n, ast.Name):
             out.add(n.id)
     return out
+
+
+MEMO_DECORATORS = {"lru_cache", "cache", "cached_property", "memoize", "memoized"}
+
+
+def purity(an: Analysis, rep, rule: str, entries, versions=((3, 10),)):
+    """
+    Shared obligation (same facts as C12's R12.3): the closure of the given API entries keeps no state between calls -
+    no memoising decorator, no write to a module-level / class-level object.  A result that depends on earlier calls breaks
+    every property stated per input (decoded view, signature, equality, iteration ...).
+    """
+    from sa.absint import MODULE_CTX
+    rep.rule(rule, "the closure is a function of its argument: no memoisation, no module-level state (shared with R12.3)", 1)
+    n_fn = 0
+    for entry in entries:
+        for V in versions:
+            it, _ = an.interp(entry, V)
+            for f in an.closure(entry, V):
+                n_fn += 1
+                memo = [d for d in f.decorators if d in MEMO_DECORATORS]
+                if memo:
+                    rep.add(rule, f"{f.qual}::decorators", False, loc(f.module, f.node),
+                            f"{f.name} is memoised ({memo[0]}): results are shared between calls through a cache keyed by ==/hash, which is coarser than the "
+                            f"identity the library must preserve (1 / 1.0 / True, 0.0 / -0.0; code objects compare equal regardless of file name and line table) and "
+                            f"hands out one object to unrelated callers", config=entry)
+            for m in it.mutations:
+                bad = [a for a in m["targets"] if (a[0] == "obj" and a[2] == MODULE_CTX) or a[0] in ("class", "module")]
+                if bad:
+                    node = it.node_index[m["node"]]
+                    mod = an.prog.module(m["module"])
+                    rep.add(rule, f"{m['fn']}::{norm_src(node)}", False, loc(mod, node),
+                            f"{m['kind']} on a module-level object (created at {bad[0][1][0]}:{bad[0][1][1]}" + ") that survives the call: later calls see state left by earlier ones"
+                            if bad[0][0] == "obj" else f"{m['kind']} on {bad[0][0]} {bad[0][1]}", config=entry)
+    rep.add(rule, "closure keeps no state between calls", True, "code_data/", f"{n_fn} function activations in the closures of {list(entries)} examined", nontrivial=False)
